@@ -407,7 +407,7 @@ def run_threads(ctx, FST, rounds):
             if ctx.out_of_time():
                 break
             K = ctx.rnd.choice([2, 4, 8, 16])
-            nsteps = ctx.rnd.choice([40, 80, 150])
+            nsteps = ctx.rnd.choice([n for n in (40, 80, 150) if n * K <= 640])   # bounded work per round: a round is not interruptible by the time budget
             seeds = [ctx.rnd.getrandbits(30) for _ in range(K)]
             # alone (each in a fresh thread, sequentially) - monitoring off to get the plain reference
             alone = {}
